@@ -35,10 +35,8 @@ def run(R, tier):
 
     # ---- R11.1 ArrayVec formatter op table --------------------------------------------------------------
     def fimpl(self_contains, method):
-        bs = u.impl_methods("parser::response::Formatter", method, self_contains)
-        if len(bs) != 1:
-            raise facts.AnchorLost("impl Formatter for %s::%s" % (self_contains, method))
-        return bs[0]
+        # the impl's own method, or the trait's provided method when the impl does not override it
+        return u.trait_method("parser::response::Formatter", method, self_contains)
 
     for meth, callee in (("push_str", "try_extend_from_slice"), ("push_byte", "try_push")):
         b = fimpl("arrayvec::ArrayVec", meth)
@@ -64,8 +62,8 @@ def run(R, tier):
     PANICKY = ("push", "extend_from_slice", "insert", "push_unchecked", "remove", "swap_remove", "index", "index_mut", "unwrap", "expect", "set_len", "extend")
     bad = []
     n_m = 0
-    for b in u.bodies:
-        if "parser::response::Formatter" in (b.impl_trait or "") and "ArrayVec" in (b.impl_self or ""):
+    for b in u.trait_methods_for("parser::response::Formatter", "arrayvec::ArrayVec").values():
+        if True:
             n_m += 1
             for c in b.calls():
                 nm = c.name.split("::")[-1]
@@ -73,7 +71,7 @@ def run(R, tier):
                     bad.append("%s in %s" % (c.name, b.name))
             for bi in b.mir.live_blocks():
                 t = b.mir.blocks[bi]["term"]
-                if t["k"] == "assert":
+                if t["k"] == "assert" and not b.in_trait:
                     bad.append("%s assert in %s" % (t["msg"], b.name))
     R.check(not bad and n_m >= 8, "R11.1", "ArrayVec:no-panicking-op", "only non-panicking container calls in the %d methods of the fixed-capacity formatter" % n_m, "fixed-capacity formatter uses a panicking operation (%s): a full buffer would panic instead of returning -225" % bad)
 
